@@ -29,6 +29,7 @@ type c10Pattern struct {
 	hooks    bool
 	clients  int
 	mix      string // "auth-update", "mixed", "auth-only"
+	dur      time.Duration
 }
 
 func stalledMaster() (string, func()) {
@@ -72,16 +73,19 @@ func runC10(em *vEmitter, r *vRng) {
 		dur = 15 * time.Second
 	}
 	pats := []c10Pattern{
-		{"local/auth-vs-update", func() (string, func()) { return "local", func() {} }, false, 40, "auth-update"},
-		{"local/mixed+hooks", func() (string, func()) { return "local", func() {} }, true, 24, "mixed"},
-		{"off/mixed", func() (string, func()) { return "", func() {} }, false, 24, "mixed"},
-		{"remote-unreachable/auth", unreachableMaster, false, 40, "auth-only"},
-		{"remote-stalled/auth+update", stalledMaster, true, 40, "auth-update"},
-		{"local/auth-only-burst", func() (string, func()) { return "local", func() {} }, false, 64, "auth-only"},
+		{"local/auth-vs-update", func() (string, func()) { return "local", func() {} }, false, 40, "auth-update", 0},
+		{"local/mixed+hooks", func() (string, func()) { return "local", func() {} }, true, 24, "mixed", 0},
+		{"off/mixed", func() (string, func()) { return "", func() {} }, false, 24, "mixed", 0},
+		{"remote-unreachable/auth", unreachableMaster, false, 40, "auth-only", 0},
+		{"remote-stalled/auth+update", stalledMaster, true, 40, "auth-update", 0},
+		{"local/auth-only-burst", func() (string, func()) { return "local", func() {} }, false, 64, "auth-only", 0},
+		// long enough for the hook runner's trailing round (5 s after the first change) and for its
+		// notification queue (32) to fill behind a hook runner that has stopped draining it
+		{"off/mixed+hooks-long", func() (string, func()) { return "", func() {} }, true, 16, "mixed", 9 * time.Second},
 	}
 	if vThorough() {
 		for i := 0; i < 6; i++ {
-			pats = append(pats, c10Pattern{fmt.Sprintf("local/auth-vs-update-%d", i), func() (string, func()) { return "local", func() {} }, i%2 == 0, 16 + 16*i, "auth-update"})
+			pats = append(pats, c10Pattern{fmt.Sprintf("local/auth-vs-update-%d", i), func() (string, func()) { return "local", func() {} }, i%2 == 0, 16 + 16*i, "auth-update", 0})
 		}
 	}
 	// dynamic cross-check of the extracted channel capacities
@@ -124,7 +128,11 @@ func runC10(em *vEmitter, r *vRng) {
 		api := st.GetInterface()
 		var done, started int64
 		var maxLat int64
-		deadline := time.Now().Add(dur)
+		pdur := dur
+		if p.dur > pdur {
+			pdur = p.dur
+		}
+		deadline := time.Now().Add(pdur)
 		var wg sync.WaitGroup
 		for c := 0; c < p.clients; c++ {
 			wg.Add(1)
